@@ -99,9 +99,10 @@ func init() {
 		target{Dir: "core/circuitbreaker", Func: "MetricStatSlot.OnCompleted", Name: "cb_statSlot_step", LoopBody: 1,
 			RangeVars: map[string]string{"cb": "CircuitBreaker"},
 			Hints: map[string]hint{
-				"ctx.Resource.Name()": {"", "opaque"},
-				"ctx.Err()":           {"", "opaque"},
-				"ctx.Rt()":            {"entry_rt", "uint64"}},
+				"ctx.Resource.Name()":        {"", "opaque"},
+				"getBreakersOfResource(res)": {"", "opaque"},
+				"ctx.Err()":                  {"", "opaque"},
+				"ctx.Rt()":                   {"entry_rt", "uint64"}},
 			Acts: map[string]act{"cb.OnRequestComplete": {Tag: brkOnComplete, Keep: []int{0, 1}}}},
 		// retryTimeoutArrived: now >= deadline (both uint64)
 		target{Dir: "core/circuitbreaker", Func: "circuitBreakerBase.retryTimeoutArrived", Name: "cb_retryTimeoutArrived",
